@@ -33,6 +33,12 @@ Theorem C20_alignment_irrelevant : forall cls pds f,
 Proof. exact read_write_with. Qed.
 Print Assumptions C20_alignment_irrelevant.
 
+(* the padding that write_m uses puts the '=' of consecutive specs in one column unless a
+   documentation line separates them (never truncating a name); one padding per property *)
+Theorem C20_pads_aligned : forall ps, length (pads ps) = length ps /\ aligned ps (pads ps).
+Proof. exact pads_aligned. Qed.
+Print Assumptions C20_pads_aligned.
+
 (* strconv.Unquote inverts %q on every byte string: quotes, backslashes, newlines, NUL, invalid
    UTF-8, any rune, whatever the printable table says *)
 Theorem C20_unquote_quote : forall cls s,
